@@ -2,7 +2,7 @@
 import os, json
 from tools import tlaval
 
-RULE = ("MC: Lifecycle.tla (Control state machine, goroutine classes bound to context/socket/device, stop at every phase, "
+RULE = ("MC: Lifecycle.tla (Control state machine, one udp socket per configured routine of which activate() serves only as many as the device has queues, goroutine classes bound to context/socket/device, stop at every phase, "
         "second stop, start after stop) with the liveness property StopReleases under weak fairness. R: every distinct "
         "environment history of that model containing a Stop is replayed on 3 complete nodes (lighthouse, A, B) in a synctest "
         "bubble with each role as the node under test; distinct = (history, role)")
@@ -35,7 +35,7 @@ def run(ctx):
         json.dump({'histories': [list(h) for h in hl]}, f)
     res = ctx.gotest('e2e', 'TestVerif_C49', tags='verif e2e_testing', also=('net',), timeout=600 if ctx.quick else 1500)
     ctx.take_mismatches(res)
-    ctx.require_actions('Stop', 'Start', 'reload', 'lighthouse', 'hs2')
+    ctx.require_actions('Stop', 'Start', 'reload', 'lighthouse', 'hs2', 'routines:2', 'sockets:2', 'sockets:1')
 
 
 META = {
